@@ -37,7 +37,31 @@ func loadBlock(st *State, s *SliceV) *Term {
 	for i := int64(0); i < 16; i++ {
 		bs = append(bs, st.loadScalar(BV(8), s.ElemAddr(BVc(i, 64))))
 	}
+	// 16 consecutive byte extracts of one 128-bit term are that term
+	if x := sameExtractSource(bs); x != nil {
+		return x
+	}
 	return bytesToBV128(bs)
+}
+
+func sameExtractSource(bs []*Term) *Term {
+	var src *Term
+	for j, b := range bs {
+		if b.Op != "extract" || len(b.Args) != 1 || b.Args[0].Sort != BV(128) {
+			return nil
+		}
+		var hi, lo int
+		fmt.Sscanf(b.Name, "(_ extract %d %d)", &hi, &lo)
+		if hi != 127-8*j || lo != 120-8*j {
+			return nil
+		}
+		if src == nil {
+			src = b.Args[0]
+		} else if src != b.Args[0] {
+			return nil
+		}
+	}
+	return src
 }
 
 func init() {
@@ -75,7 +99,17 @@ func init() {
 				ex.safe(st, in, "aesblock", And(BVCmp("bvuge", src.Len, BVc(16, 64)), BVCmp("bvuge", dst.Len, BVc(16, 64))))
 			}
 			key := st.loadScalar(BV(128), FldAddr(iv.Data, 0))
-			out := App(uf, BV(128), key, loadBlock(st, src))
+			blk := loadBlock(st, src)
+			out := App(uf, BV(128), key, blk)
+			// aes_enc(k, aes_dec(k, x)) = x and vice versa: applied syntactically as well (the axiom pair is
+			// in the scripts anyway), so that bytes recovered by decryption are the original terms
+			inv := "aes_dec"
+			if uf == "aes_dec" {
+				inv = "aes_enc"
+			}
+			if blk.Op == inv && len(blk.Args) == 2 && blk.Args[0] == key {
+				out = blk.Args[1]
+			}
 			if in != nil {
 				ex.checkFrameRange(st, in, dst, BVc(16, 64))
 			}
